@@ -263,6 +263,35 @@ fn blank_texts(ctx: &Ctx) -> u64 {
             }
         }
     }
+    // a failing last command followed by lines without commands: the status stays the command's
+    for text in ["s 7\n\n", "s 7\n# c\n", "s 7\n\n\n# c", "\ns 7\n \n", "s 0\ns 7\n\n", "if s 0; then s 7; fi\n\n"] {
+        let cases: Vec<(&str, String)> = vec![
+            ("eval", format!("eval '{text}'\np z")),
+            ("dot", ". /tmp/blank\np z".to_string()),
+            ("substitution", format!("x=$({text}\n)\np z")),
+            ("function-eval", format!("f() {{ eval '{text}'; }}\nf\np z")),
+        ];
+        for (kind, script) in cases {
+            let mut setup = Setup::script(&script);
+            setup.files.push(("/tmp/blank".into(), text.as_bytes().to_vec(), 0o644));
+            let r = run_once(&setup, &Default::default());
+            n += 1;
+            let got = r.all_trace();
+            if got != ["z:7"] || r.panic.is_some() {
+                ctx.violation(
+                    &format!("c02:status-lost-after-trailing-blank-lines-{kind}"),
+                    &format!("{text:?} run by {kind}: markers {got:?}, expected [\"z:7\"] (the status of the last command executed); stderr={:?}", r.stderr),
+                    json!({"script": script, "file:/tmp/blank": text, "expected": "[\"z:7\"]"}),
+                );
+            }
+        }
+        // as the whole script: the exit status of the shell
+        let r = run_once(&Setup::script(text), &Default::default());
+        n += 1;
+        if r.end != End::Exited(7) {
+            ctx.violation("c02:status-lost-after-trailing-blank-lines-script", &format!("script {text:?}: the shell ended {:?}, expected exit status 7", r.end), json!({"script": text, "expected": "exit 7"}));
+        }
+    }
     n
 }
 
